@@ -681,7 +681,7 @@ MANIFEST = dict(
           "(asynctask_pinned_unsafe, schedule_pinned_uaf, schedule_pinned_single_thread_stuck). The model is tied to the code "
           "by running the same op lines (bursts of up to 10^5 closures owning heap state, async with 4 result types, AsyncTask "
           "with 5 result types incl. a slow-to-default-construct lifetime-logged one, all controller sequences at random "
-          "pauses) through the real library built for each of the four backends (ASan/UBSan, OpenMP/std::thread also TSan, "
+          "pauses; a normal process exit with closures still queued behind parked workers, observed by the parent) through the real library built for each of the four backends (ASan/UBSan, OpenMP/std::thread also TSan, "
           "fresh process per case) and through the compiled model. PARTIAL: TBB task_group/task_arena, OpenMP, std::thread, "
           "std::packaged_task/future are contracts that are observed on every run, not proved; 'eventually' is proved as "
           "absence of stuck states plus a decreasing measure, i.e. under scheduler fairness."),
